@@ -193,6 +193,30 @@ def work_whittaker(arg):
         return out
     e = core.relerr(ge, vals)
     out['worst'] = e
+    if order == 'ascending' and name in ('Langmuir', 'Toth'):
+        # the same curve as measured points: stored in K, converted to degC, built in degC, stored in bar - one and the same result
+        pts_n = numpy.linspace(0.05, 0.95, 40) * params['n_m']
+        pts_p = numpy.array([float(numpy.asarray(m.pressure(x)).reshape(-1)[0]) for x in pts_n])
+        kwp = dict(pressure=pts_p, loading=pts_n, material='c19', adsorbate=ads, pressure_mode='absolute', pressure_unit='Pa', loading_basis='molar', loading_unit='mmol',
+                   material_basis='mass', material_unit='g')
+        variants = {'stored in K': lambda: pygaps.PointIsotherm(temperature=T, temperature_unit='K', **kwp),
+                    'built in degC': lambda: pygaps.PointIsotherm(temperature=T - 273.15, temperature_unit='°C', **kwp),
+                    'converted to degC': lambda: (lambda i_: (i_.convert_temperature('°C'), i_)[1])(pygaps.PointIsotherm(temperature=T, temperature_unit='K', **kwp)),
+                    'converted to bar': lambda: (lambda i_: (i_.convert_pressure(unit_to='bar'), i_)[1])(pygaps.PointIsotherm(temperature=T, temperature_unit='K', **kwp))}
+        lq = [float(x) for x in keep[:8]] or [0.3 * params['n_m']]
+        res_ = {k_: core.call(lambda mk_=mk_: pgc.enthalpy_sorption_whittaker(mk_(), model=name, loading=lq)) for k_, mk_ in variants.items()}
+        out['ev'] += 1
+        b_ = res_['stored in K']
+        if b_.ok:
+            out['nt'] += 1
+            for k_, r_ in res_.items():
+                if k_ == 'stored in K':
+                    continue
+                if not r_.ok or len(r_.value['enthalpy_sorption']) != len(b_.value['enthalpy_sorption']) or \
+                        core.relerr(r_.value['enthalpy_sorption'], b_.value['enthalpy_sorption']) > 1e-6:
+                    out['viol'].append(core.make_violation({'check': 'whittaker-point-isotherm-representation', 'variant': k_},
+                                                           f'Whittaker ({name}) on a point isotherm of {ads} at {T} K {k_}: {list(r_.value["enthalpy_sorption"][:3]) if r_.ok else r_.brief()[:100]} but '
+                                                           f'stored in K and Pa: {list(b_.value["enthalpy_sorption"][:3])}', {'variant': k_}))
     if e > 1e-8:
         i = int(numpy.argmax(numpy.abs(numpy.array(ge) - numpy.array(vals))))
         out['viol'].append(core.make_violation({'check': 'whittaker-closed-form', 'order': order},
@@ -211,6 +235,9 @@ def check_initial_point(ctx):
         ([0.01, 0.1, 0.5, 1.0, 0.6, 0.2], [0.5, 1.5, 2.5, 3.0, 2.8, 2.0], [41.5, 33.0, 28.0, 25.0, 26.5, 30.25], [0, 0, 0, 0, 1, 1]),
         ([0.2, 0.1, 0.05, 0.3, 0.9], [2.0, 1.5, 1.0, 1.2, 3.0], [30.0, 35.5, 38.0, 44.25, 22.0], [1, 1, 1, 0, 0]),
         ([0.05, 0.5, 1.0], [1.0, 2.0, 2.5], [55.125, 30.0, 20.0], [0, 0, 0]),
+        # rows in measured order, not monotonic in pressure within a branch (a second dose equilibrating below the first, ...)
+        ([0.2, 0.1, 0.5, 1.0, 0.6, 0.8, 0.2], [1.0, 0.8, 2.5, 3.0, 2.8, 2.9, 2.0], [41.0, 36.5, 28.0, 25.0, 26.5, 27.75, 30.25], [0, 0, 0, 0, 1, 1, 1]),
+        ([0.5, 0.9, 0.3, 0.05, 0.02, 0.04], [2.0, 3.0, 1.2, 0.4, 0.2, 0.3], [30.0, 22.0, 35.5, 48.0, 52.5, 50.0], [0, 0, 1, 1, 0, 0]),
     ]
     for p, n, h, br in sets:
         df = pandas.DataFrame({'pressure': p, 'loading': n, 'enthalpy': [x * ctx.scale for x in h], 'branch': br})
